@@ -32,7 +32,7 @@ type C18Plan struct {
 
 const rootName = "data"
 
-var segPool = []string{"a", "b", "..", "..", ".", "", rootName, rootName + "-other", rootName + "2", "x", "pkg_v1-0-0-beta", "tmp"}
+var segPool = []string{"a", "b", "..", "..", ".", "", rootName, rootName + "-other", rootName + "2", "x", "pkg_v1-0-0-beta", "tmp", "DATA", "A"}
 
 func genC18(rng *rand.Rand, tier string) *C18Plan {
 	p := &C18Plan{Comp: []string{"fstree", "fstree", "dirstruct", "scan", "unpack"}[rng.IntN(5)], Depth: 1 + rng.IntN(4)}
@@ -48,7 +48,7 @@ func genC18(rng *rand.Rand, tier string) *C18Plan {
 		p.Trail = append(p.Trail, rng.IntN(6) == 0)
 		switch p.Comp {
 		case "fstree":
-			p.Ops = append(p.Ops, []string{"get", "put", "delete", "query"}[rng.IntN(4)])
+			p.Ops = append(p.Ops, []string{"get", "put", "delete", "query", "query", "querygone"}[rng.IntN(6)])
 		case "dirstruct":
 			p.Ops = append(p.Ops, []string{"abs", "rel", "reldir", "child", "child2"}[rng.IntN(5)])
 		case "scan":
@@ -159,7 +159,7 @@ func execC18(p *C18Plan, rc *simkit.RunCtx) {
 		parent = filepath.Join(parent, fmt.Sprintf("l%d", i))
 	}
 	root := filepath.Join(parent, rootName)
-	for _, d := range []string{root, filepath.Join(root, "a"), filepath.Join(parent, rootName+"-other"), filepath.Join(parent, rootName+"2"), filepath.Join(parent, "x")} {
+	for _, d := range []string{root, filepath.Join(root, "a"), filepath.Join(parent, rootName+"-other"), filepath.Join(parent, rootName+"2"), filepath.Join(parent, "x"), filepath.Join(parent, "DATA")} {
 		_ = os.MkdirAll(d, 0o755)
 	}
 	mk := func(path string, data []byte) { _ = os.WriteFile(path, data, 0o644) }
@@ -173,6 +173,7 @@ func execC18(p *C18Plan, rc *simkit.RunCtx) {
 	mk(filepath.Join(parent, rootName+"-other", "a"), rec("a"))
 	mk(filepath.Join(parent, rootName+"2", "x"), rec("x"))
 	mk(filepath.Join(parent, "x", "a"), rec("a"))
+	mk(filepath.Join(parent, "DATA", "a"), rec("a")) // a sibling whose name differs from the root's in letter case only
 	mk(filepath.Join(parent, "file-in-parent"), []byte("parent"))
 	_ = os.MkdirAll(filepath.Join(root, "tmp", "pkg_v1-0-0-beta"), 0o755)
 	mk(filepath.Join(root, "tmp", "pkg_v1-0-0-beta", "x"), []byte("sibling of the unpack directory"))
@@ -258,7 +259,13 @@ func execC18(p *C18Plan, rc *simkit.RunCtx) {
 				_, err = st.Put(w)
 			case "delete":
 				err = st.Delete(name)
-			case "query":
+			case "query", "querygone":
+				if op == "querygone" {
+					// the database directory has vanished (removed by someone else): a query must not wander off
+					// into the parent directory instead
+					_ = os.Rename(root, root+".gone")
+					defer func() { _ = os.Rename(root+".gone", root) }()
+				}
 				q := query.New("simdb:" + name).MustBeValid()
 				it, qerr := st.Query(q, true, true)
 				err = qerr
@@ -309,6 +316,11 @@ func execC18(p *C18Plan, rc *simkit.RunCtx) {
 				if !ok && (c.Op == "stat" || c.Op == "lstat" || c.Op == "mkdirall" || c.Op == "mkdir" || c.Op == "chmod") && inside(rp, root) {
 					ok = true
 				}
+				// starting a walk at an ancestor of the root looks at that directory entry only (an lstat); what counts is
+				// whether the walk then visits anything in it that is not the root's own line of ancestors
+				if !ok && (c.Op == "walk" || c.Op == "walk-visit") && inside(rp, root) {
+					ok = true
+				}
 				if ok && op == "entry" && (c.Op == "openfile" || c.Op == "mkdir") && !inside(unpackDir, rp) {
 					ok = false // an entry was extracted outside of the unpack directory
 				}
@@ -328,7 +340,7 @@ func execC18(p *C18Plan, rc *simkit.RunCtx) {
 			rc.Fail("C18.outside-changed", fmt.Sprintf("something outside the root was created, modified or deleted (%s %s, name %s)", p.Comp, op, nameClass(segs, p.Lead[i])), fmt.Sprintf("name %q: %s", name, d))
 			return
 		}
-		if escapes && err == nil && op != "query" {
+		if escapes && err == nil && op != "query" && op != "querygone" {
 			rc.Fail("C18.escape-accepted", fmt.Sprintf("a name that escapes the root was not rejected with an error (%s %s, name %s)", p.Comp, op, nameClass(segs, p.Lead[i])), fmt.Sprintf("name %q resolves to %s", name, target))
 			return
 		}
@@ -340,6 +352,11 @@ func nameClass(segs []string, lead bool) string {
 	for _, s := range segs {
 		if strings.HasPrefix(s, rootName) && s != rootName {
 			return "via a sibling directory sharing the root's name as prefix"
+		}
+	}
+	for _, s := range segs {
+		if s == "DATA" {
+			return "via a sibling directory whose name differs in letter case"
 		}
 	}
 	for _, s := range segs {
@@ -375,6 +392,17 @@ func unpackWith(reg *updater.ResourceRegistry, root, entry string, rc *simkit.Ru
 	if err == nil {
 		_, _ = w.Write([]byte("zip entry content"))
 	}
+	// a symbolic-link entry pointing out of the unpack directory, and a file entry below it: the names pass any
+	// lexical check, the place they would land in does not
+	lh := &zip.FileHeader{Name: "lnk", Method: zip.Store}
+	lh.SetMode(os.ModeSymlink | 0o777)
+	if lw, lerr := zw.CreateHeader(lh); lerr == nil {
+		_, _ = lw.Write([]byte(filepath.Join(filepath.Dir(root), rootName+"-other")))
+	}
+	if w3, _ := zw.Create("lnk/x"); w3 != nil {
+		_, _ = w3.Write([]byte("written through a link entry"))
+	}
+	_, _ = zw.Create("ok/")
 	w2, _ := zw.Create("ok/inner.txt")
 	if w2 != nil {
 		_, _ = w2.Write([]byte("inner"))
